@@ -278,7 +278,22 @@ fn build(t: &mut Tape) -> (Program, bool, bool, &'static str) {
             lines.push(vec![sete("X", 1, lit(11)), sete("X", 2, lit(12)), sete("A", 1, lit(21)), sete("A", 2, lit(22)), sete("P", 1, lit(31)), sete("P", 2, lit(32))]);
             lines.push(vec![sete("F", 1, lit(41)), sete("F", 2, lit(42)), sete("S$", 1, E::Str("arr1".into())), sete("S$", 2, E::Str("arr2".into())), sete("T$", 1, E::Str("u1".into())), sete("T$", 2, E::Str("u2".into()))]);
         }
-        let s: Vec<Stmt> = match g.t.below(9) {
+        let kind = g.t.below(10);
+        if kind == 9 {
+            // DEF as the last statement of an IF arm: only the arm that runs defines the function
+            let k = g.t.range(0, 5);
+            let def = |body: E| Stmt::Def { name: Name::new("FNK"), params: vec![Name::new("X")], body };
+            let two = g.t.chance(2, 3);
+            lines.push(vec![Stmt::If {
+                c: bin(Bin::Gt, v("N%"), lit(k)),
+                then_: Arm::Stmts(vec![Stmt::Print(vec![PItem::Expr(E::Str("t".into())), PItem::Semi]), def(bin(Bin::Mul, v("X"), E::Lit("2.5".into())))]),
+                else_: if two { Some(Arm::Stmts(vec![def(bin(Bin::Add, v("X"), lit(7)))])) } else { None },
+                goto_form: false,
+            }]);
+            lines.push(vec![Stmt::Print(vec![PItem::Expr(E::Fn(Name::new("FNK"), vec![lit(10)]))])]);
+            continue;
+        }
+        let s: Vec<Stmt> = match kind {
             0 | 1 => {
                 let a = g.call(3, &scope, false);
                 let ws = g.fns.iter().any(|f| f.ret == Ty::Str) && g.t.chance(1, 2);
@@ -398,7 +413,8 @@ fn check_functions(t: &mut Tape, ctx: &Ctx) -> Outcome {
         vec![Stmt::Print(vec![PItem::Expr(E::Fn(Name::new("FNQ"), vec![lit(1)]))])],
         vec![Stmt::Print(vec![PItem::Expr(lit(1))])],
     ];
-    let case = format!("{}\n{}", case0, directs.iter().map(|d| format!("> {}", render_stmts(d))).collect::<Vec<_>>().join("\n"));
+    let refused_renum = t.chance(1, 3);
+    let case = format!("{}\n{}{}", case0, directs.iter().map(|d| format!("> {}", render_stmts(d))).collect::<Vec<_>>().join("\n"), if refused_renum { "\n(RENUM 10,0,0 typed after the first of these lines)" } else { "" });
     crate::runner::note_case(&case);
     let mut m = Machine::new(&prog);
     let mut term = Term::new();
@@ -411,6 +427,14 @@ fn check_functions(t: &mut Tape, ctx: &Ctx) -> Outcome {
         return Outcome::fail("program-entry-printed", "typing the program printed something".into(), case);
     }
     for (i, d) in directs.iter().enumerate() {
+        if i == 1 && refused_renum {
+            // a RENUM that is refused changes nothing: the functions of the run are still there
+            term.line("RENUM 10,0,0", &mut o);
+            let got = flat(&term.take());
+            if !got.starts_with('?') || term.listing_text() != texts {
+                return Outcome::fail("function-transcript", format!("RENUM 10,0,0 (increment 0) answered {:?}; listing {:?}", got, term.listing_text()), case);
+            }
+        }
         // FNA may have string parameters: skip the direct call then
         if i == 2 || i == 4 {
             let ok = prog.lines.iter().any(|l| l.stmts.iter().any(|s| matches!(s, Stmt::Def { name, params, .. } if name.text() == "FNA" && params.len() == 1 && !params[0].text().ends_with('$'))));
